@@ -69,7 +69,7 @@ def merge(c, a, b):
             b = Num(k, real(b) if k in ("double", "float") else toint(b))
         return Num(a.kind, z3.If(c, a.t, b.t))
     if isinstance(a, ObjV) and isinstance(b, ObjV):
-        return ObjV(a.cls, a.p, z3.If(c, a.oid, b.oid), z3.If(c, a.null, b.null))
+        return ObjV(a.cls, a.p, z3.If(c, a.oid, b.oid), z3.If(c, a.null, b.null), a.ref)
     if isinstance(a, CollV) and isinstance(b, CollV):
         slots = [(And(c, g), v) for g, v in a.slots] + [(And(Not(c), g), v) for g, v in b.slots]
         return CollV(a.tname, a.elem_t, a.p, slots, z3.If(c, a.valid, b.valid), a.handle, a.key)
@@ -126,7 +126,7 @@ class TreeV:
 
 
 class Exec:
-    def __init__(self, event, dm, members, ctx=None, tag="", member_pre="empty", range_cap=None):
+    def __init__(self, event, dm, members, ctx=None, tag="", member_pre="empty", range_cap=None, patches=()):
         """members: [(type string, name)] from the class_decl slot (+ static members)."""
         self.ev = event
         self.dm = dm
@@ -147,6 +147,7 @@ class Exec:
         self.range_cap = range_cap if range_cap is not None else event.N + 1
         self.pre_slots = {}
         self.events_log = []
+        self.patches = set(patches)
         for ty, name in members:
             self.declare_member(ty, name)
 
@@ -219,12 +220,9 @@ class Exec:
     def deref(self, v, g, what="*"):
         if isinstance(v, ObjV):
             if v.p < 1:
-                if self.dm.cls(v.cls).reflike:
-                    self.fault(And(g, v.null), "nullderef", f"{what} on null {v.cls}")
-                    return ObjV(v.cls, 0, v.oid, FALSE)
                 raise IllTyped(f"dereference of non-pointer value of type {v.cls}")
             self.fault(And(g, v.null), "nullderef", f"{what} on null {v.cls}*")
-            return ObjV(v.cls, v.p - 1, v.oid, FALSE if v.p == 1 else v.null)
+            return ObjV(v.cls, v.p - 1, v.oid, FALSE if v.p == 1 else v.null, False)
         if isinstance(v, CollV):
             if v.handle:
                 self.fault(And(g, Not(v.valid)), "throw", "dereference of invalid edm::Handle")
@@ -240,14 +238,13 @@ class Exec:
     def member_target(self, op, obj, g, name):
         """Resolve obj.name / obj->name : returns the (deref'd) receiver value."""
         if isinstance(obj, (ObjV, CollV)):
-            if isinstance(obj, ObjV) and self.dm.cls(obj.cls).reflike and obj.p <= 1:
-                # Ref-like: both '.' (own methods) and '->' (pointee) are fine
+            if isinstance(obj, ObjV) and obj.ref and obj.p == 1:
+                # edm::Ref-like: '.' reaches the Ref's own methods, '->' the pointee
                 if op == "->":
-                    self.fault(And(g, obj.null), "nullderef", f"-> on null {obj.cls}")
-                    return ObjV(obj.cls, 0, obj.oid, FALSE)
-                if name in ("isNonnull", "isNull", "isAvailable", "get"):
+                    return self.deref(obj, g, "->")
+                if name in ("isNonnull", "isNull", "isAvailable"):
                     return obj
-                raise IllTyped(f"'.{name}' on Ref-like {obj.cls}: pointee members need '->'")
+                raise IllTyped(f"'.{name}' on edm::Ref to {obj.cls}: pointee members need '->'")
             if isinstance(obj, CollV) and obj.handle:
                 if op == "->":
                     return self.deref(obj, g, "->")
@@ -396,7 +393,12 @@ class Exec:
         kind = max(a.kind, b.kind, key=lambda x: KIND_RANK[x])
         if op == "%":
             if kind != "int":
-                raise IllTyped(f"'%' with operand of kind {kind} is not valid C++")
+                if "allow_real_mod" not in self.patches:
+                    raise IllTyped(f"'%' with operand of kind {kind} is not valid C++")
+                x, y = real(a), real(b)
+                self.assumes.append(z3.Implies(And(g, self.alive), y != 0))
+                q = x / y
+                return Num(kind, x - y * z3.If(q >= 0, z3.ToReal(z3.ToInt(q)), -z3.ToReal(z3.ToInt(-q))))
             self.assumes.append(z3.Implies(And(g, self.alive), b.t != 0))
             return Num("int", cmod(a.t, b.t))
         if kind == "int":
@@ -486,10 +488,10 @@ class Exec:
         # math / free functions on numbers
         a = self.ev_args(args, g)
         if all(isinstance(x, Num) for x in a):
-            r = mathfn.apply(self.ev, name, a)
-            if mathfn.canonical(name) in ("abs", "fabs") and name in ("std::abs", "abs") and a and a[0].kind in ("int", "bool"):
-                return Num("int", toint(Num("double", r.t)))   # std::abs(int) is int
-            return r
+            if name in ("std::abs", "abs") and len(a) == 1 and a[0].kind in ("int", "bool"):
+                x = toint(a[0])
+                return Num("int", z3.If(x >= 0, x, -x))        # std::abs(int) is int
+            return mathfn.apply(self.ev, name, a)
         raise Unsupported(f"free function {name} on non-numeric arguments")
 
     def ev_method_call(self, callee, args, g):
@@ -536,7 +538,7 @@ class Exec:
         if isinstance(recv, CollV):
             return self.coll_method(recv, obj_e, name, args, g)
         if isinstance(recv, ObjV):
-            if self.dm.cls(recv.cls).reflike and op == "." and name in ("isNonnull", "isNull", "isAvailable"):
+            if recv.ref and recv.p == 1 and op == "." and name in ("isNonnull", "isNull", "isAvailable"):
                 r = Not(recv.null) if name != "isNull" else recv.null
                 return Num("bool", r)
             a = self.ev_args(args, g)
@@ -623,6 +625,8 @@ class Exec:
             if not isinstance(v, ObjV):
                 raise IllTyped(f"{what}: {type(v).__name__} where {t} is required")
             if v.cls != t.cls or v.p != t.p:
+                if t.cls == "auto":
+                    return v
                 raise IllTyped(f"{what}: type mismatch ({v.cls}{'*' * v.p} vs {t})")
             return v
         if isinstance(t, TToken):
@@ -740,7 +744,7 @@ class Exec:
             if isinstance(v, Num):
                 t = TNum(v.kind)
             elif isinstance(v, ObjV):
-                t = TObj(v.cls, v.p)
+                t = TObj(v.cls, v.p, v.ref)
             elif isinstance(v, CollV):
                 t = THandle(TColl(v.tname, v.elem_t, 0)) if v.handle else TColl(v.tname, v.elem_t, v.p)
             elif isinstance(v, TreeV):
@@ -857,7 +861,7 @@ class Exec:
         if isinstance(v, Num):
             return TNum(v.kind)
         if isinstance(v, ObjV):
-            return TObj(v.cls, v.p)
+            return TObj(v.cls, v.p, v.ref)
         if isinstance(v, CollV):
             return TColl(v.tname, v.elem_t, v.p)
         return TVoid()
